@@ -14,6 +14,12 @@ Lemma c03_role_le_45d : 0 < maxRoleRequestingCertDuration_ns <= 45 * 86400 * NS.
 Proof. vm_compute. intuition congruence. Qed.
 Goal True. idtac "@@OBL c03_role_le_45d". Abort.
 
+(* cloud-role certificates: the lifetime of the template the library builds (probed on the current
+   tree: NotAfter - NotBefore of the template handed to the certificate generator) is at most 24 hours *)
+Lemma c03_aws_le_24h : 0 < awsRoleCertLifetime_ns <= 24 * 3600 * NS.
+Proof. vm_compute. intuition congruence. Qed.
+Goal True. idtac "@@OBL c03_aws_le_24h". Abort.
+
 (* the property with its own numbers: nothing signed through /certgen/ is valid more than
    24 h after now2, nor more than 24 h (+ handler latency) after the authentication instant *)
 Theorem c03_24h : forall req iat now1 now2 d,
@@ -33,3 +39,25 @@ Proof.
   destruct X as [_ [X2 [X3 _]]]. lia.
 Qed.
 Goal True. idtac "@@OBL c03_24h". Abort.
+
+(* every path, every configuration, every credential kind, with the literal numbers of the property *)
+Definition limits_now : limits :=
+  {| maxc := maxCertificateLifetime_ns; maxrole := maxRoleRequestingCertDuration_ns; awslife := awsRoleCertLifetime_ns |}.
+Theorem c03_every_path_every_config : forall cfg p req c now0 now1 now2 nb na,
+  0 <= issued_at c now0 -> 0 <= now1 <= now2 -> now2 < two64 * NS / 4 ->
+  now1 < issued_at c now0 + two64 * NS / 4 ->
+  effective_window cfg limits_now p req c now0 now1 now2 = Some (nb, na) ->
+  nb <= now2 /\
+  na <= now2 + (match p with Role | Refresh => 45 * 86400 * NS | _ => 24 * 3600 * NS end) /\
+  (is_certgen p = true -> na <= Z.max nb (issued_at c now0 + 24 * 3600 * NS + (now2 - now1))).
+Proof.
+  intros cfg p req c now0 now1 now2 nb na Hi Hn Hb Hb2 H.
+  assert (S : sane limits_now) by (vm_compute; intuition congruence).
+  destruct (c03_effective_window cfg limits_now p req c now0 now1 now2 nb na S Hi Hn Hb Hb2 H)
+    as [A [_ [B [C _]]]].
+  destruct c03_cap_is_24h as [C1 _]. pose proof c03_role_le_45d as C2. pose proof c03_aws_le_24h as C3.
+  split; [exact A|]. split.
+  - destruct p; cbn [path_limit limits_now maxc maxrole awslife] in B; lia.
+  - intro G. destruct (C G) as [D _]. cbn [limits_now maxc] in D. lia.
+Qed.
+Goal True. idtac "@@OBL c03_every_path_every_config". Abort.
